@@ -273,6 +273,7 @@ func C02(run *report.Run) {
 			{world.UintCfg(2, urange(1, 5), 1, B, "big"), []string{"clone", "root+load", "cursor"}, 2, true, 0},
 			{world.UintCfg(2, urange(1, 4), 1, M, "big"), []string{"root+coldload-twice"}, 2, true, 0},
 			{world.UintCfg(2, urange(1, 4), 1, B, "big"), []string{"root+coldload-twice"}, 2, true, 0},
+			{TaggedCached(0, 1), []string{"root+coldload-twice", "root+load"}, 2, true, 0},
 			{world.UintCfg(2, urange(1, 4), 2, M, "none"), []string{"clone"}, 2, true, 0},
 			{world.UintCfg(2, ulist(1, 2, 4), 2, M, "none"), []string{"root+loadnc"}, 2, true, 0},
 			{world.UintCfg(2, urange(1, 4), 1, B, "tiny1"), []string{"clone", "root+load"}, 2, true, 0},
